@@ -1,6 +1,7 @@
 package checks
 
 import (
+	"sync/atomic"
 	"fmt"
 	"testing"
 	"testing/synctest"
@@ -23,15 +24,29 @@ type c18sleepCase struct {
 	pingAt   time.Duration   // delay of the PINGRESP after the waking PINGREQ; <0 = never
 	closeAt  time.Duration   // when >0: Close() is called that long after Sleep() started
 	dupPing  bool            // PINGRESP sent twice
+	slowTx   time.Duration   // real time only: the client's DISCONNECT retransmissions take this long to leave (slow interface)
 }
 
 func (k c18sleepCase) String() string {
-	return fmt.Sprintf("real=%v rd=%v rc=%d sleep=%v disconnect-replies-after=%v pingresp-after=%v dup-pingresp=%v close-at=%v", k.real, k.rd, k.rc, k.sleep, k.discAt, k.pingAt, k.dupPing, k.closeAt)
+	return fmt.Sprintf("real=%v rd=%v rc=%d sleep=%v disconnect-replies-after=%v pingresp-after=%v dup-pingresp=%v close-at=%v slow-tx=%v", k.real, k.rd, k.rc, k.sleep, k.discAt, k.pingAt, k.dupPing, k.closeAt, k.slowTx)
 }
 
-func c18sleepGen(rng interface{ Intn(int) int }, real bool) c18sleepCase {
+func c18sleepGen(rng interface{ Intn(int) int }, real bool, slow bool) c18sleepCase {
 	k := c18sleepCase{real: real}
 	k.rc = uint(rng.Intn(3))
+	if slow {
+		// Slow interface (real time, whole seconds because the sleep duration on the wire is in seconds): the first
+		// DISCONNECT retransmission takes 1.3 s to leave; the gateway's reply to the original arrives just after the
+		// retransmission started, the client sleeps 1 s, wakes up, gets its PINGRESP at once. If the transaction is
+		// finished while the retransmission is still leaving, the retransmission is delivered after Sleep() returned.
+		k.rc = uint(1 + rng.Intn(2))
+		k.rd = []time.Duration{30 * time.Millisecond, 50 * time.Millisecond}[rng.Intn(2)]
+		k.sleep = time.Second
+		k.discAt = []time.Duration{k.rd + time.Duration(5+rng.Intn(20))*time.Millisecond}
+		k.pingAt = 0
+		k.slowTx = 1300 * time.Millisecond
+		return k
+	}
 	if real {
 		k.rd = []time.Duration{0, 1, 20 * time.Microsecond, 200 * time.Microsecond, time.Millisecond}[rng.Intn(5)]
 		k.sleep = []time.Duration{0, 50 * time.Microsecond, 500 * time.Microsecond}[rng.Intn(3)]
@@ -68,8 +83,8 @@ func c18sleepGen(rng interface{ Intn(int) int }, real bool) c18sleepCase {
 }
 
 // c18sleep runs one sleep-transaction history through the real Client.Sleep with a scripted gateway.
-func c18sleep(t *testing.T, r *rt.Run, c *rt.Case, real bool) {
-	k := c18sleepGen(c.Rand(), real)
+func c18sleep(t *testing.T, r *rt.Run, c *rt.Case, real bool, slow bool) {
+	k := c18sleepGen(c.Rand(), real, slow)
 	c.Desc = "sleep-transaction " + k.String()
 	var evs []world.Ev
 	returned := false
@@ -121,6 +136,18 @@ func c18sleep(t *testing.T, r *rt.Run, c *rt.Case, real bool) {
 			cfg.ConnectTimeout = time.Second
 		}
 		// Connect must not be disturbed by the tiny RetryDelay: it uses ConnectTimeout.
+		if k.slowTx > 0 {
+			var nd int32
+			g.Link.A.PreWrite = func(b []byte) {
+				p, _ := snref.ParseLoose(b)
+				if p == nil {
+					return
+				}
+				if p.Type == snref.DISCONNECT && p.HasDur && atomic.AddInt32(&nd, 1) > 1 {
+					time.Sleep(k.slowTx)
+				}
+			}
+		}
 		cl := newClientOn(g.Link.A, cfg)
 		cl.Dial("mem")
 		if err := cl.Connect(); err != nil {
@@ -144,8 +171,8 @@ func c18sleep(t *testing.T, r *rt.Run, c *rt.Case, real bool) {
 				}
 				time.Sleep(200 * time.Microsecond)
 			}
-			// let stray timers fire
-			time.Sleep(3 * time.Millisecond)
+			// let stray timers fire (and a retransmission that is still leaving a slow interface get out)
+			time.Sleep(3*time.Millisecond + k.slowTx + k.slowTx/10)
 			cl.Close()
 			time.Sleep(time.Millisecond)
 			g.Close()
